@@ -56,6 +56,7 @@ with open("/verif/seeded/INDEX.md", "w") as fh:
              "repaired they no longer fail, so they are not kept. C18-2 still manifests and is reported by C18.R4 / C03.R10 / C04.R7.\n")
     for label, sel in (("round 1", [r for r in rows if "-r" not in r[0]]), ("round 2", [r for r in rows if "-r2-" in r[0]]),
                        ("round 3", [r for r in rows if "-r3-" in r[0]]), ("round 4", [r for r in rows if "-r4-" in r[0]]), ("round 5", [r for r in rows if "-r5-" in r[0]]),
+                       ("round 6", [r for r in rows if "-r6-" in r[0]]), ("round 7", [r for r in rows if "-r7-" in r[0]]),
                        ("all rounds", rows)):
         if not sel:
             continue
